@@ -362,7 +362,18 @@ func (a Attr) UnmarshalToType(data []byte) (any, error) {
 		err := json.Unmarshal(data, &s)
 
 		if err != nil {
-			panic(err)
+			// Data that is not JSON at all is a misuse of this
+			// method, but a JSON value that is not a base64 string
+			// is simply an invalid value sent by a client.
+			if !json.Valid(data) {
+				panic(err)
+			}
+
+			return nil, NewErrInvalidFieldValueInBody(
+				a.Name,
+				string(data),
+				GetAttrTypeString(a.Type, a.Nullable),
+			)
 		}
 
 		// encoding/json also fills a []byte from an array of numbers,
